@@ -18,13 +18,14 @@ theorem C03_checker_sound (p : Program) (c : Cert) (h : checkCert p c = true)
     (∀ a ∈ vm.stack, ∃ v, activationVariables p vm a = .ok v) ∧
     (∀ b v, ∃ r, VM.setBreakPoint p vm b v = .ok r) ∧
     (∃ vm', VM.clearBreakpoints p vm = .ok vm') ∧
-    (∃ vm', VM.reset p vm = .ok vm') := by
-  sorry
+    (∃ vm', VM.reset p vm = .ok vm') :=
+  WF.checker_sound h hr
 
 theorem C03_wfCheck_sound (p : Program) (h : wfCheck p = true) (vm : VM) (hr : Reach p vm) :
     (∃ r, step vm = .ok r) ∧ (∃ b, vm.isDone = .ok b) ∧
     (∀ a ∈ vm.stack, ∃ v, activationVariables p vm a = .ok v) := by
-  sorry
+  have := WF.checker_sound (c := inferCert p) h hr
+  exact ⟨this.1, this.2.1, this.2.2.1⟩
 
 /-- what the certificate says about the structure (the clauses of the property, read off the
     checker): root frame first, HALT last, jumps stay inside their routine with the same frame,
@@ -39,7 +40,7 @@ theorem C03_structure (p : Program) (c : Cert) (h : checkCert p c = true) :
     (∀ (pc : Nat) (I : PcInfo) t s k, c.info pc = some I → p.code[pc]? = some (Instr.add t s k) →
         0 ≤ t ∧ t < I.frame ∧ 0 ≤ s ∧ s < I.frame) ∧
     (∀ (pc : Nat) (I : PcInfo) t s, c.info pc = some I → p.code[pc]? = some (Instr.arg t s) →
-        ∃ cf j, I.pend = some (cf, j) ∧ 0 ≤ t ∧ t < cf ∧ 0 ≤ s ∧ s < I.frame) := by
-  sorry
+        ∃ cf j, I.pend = some (cf, j) ∧ 0 ≤ t ∧ t < cf ∧ 0 ≤ s ∧ s < I.frame) :=
+  WF.structure_ok h
 
 end Theo
